@@ -1,11 +1,13 @@
-CONSTANT Merge = "inplace"
+CONSTANT Merge = "copy"
 CONSTANT MaxOps = 2
-CONSTANT NPairs = 4
-CONSTANT NTrees = 2
-CONSTANT NKw = 4
+CONSTANT NPairs = 6
+CONSTANT NTrees = 3
+CONSTANT NKw = 5
 CONSTANT WithPut = FALSE
 CONSTANT Filter = FALSE
 INIT Init
 NEXT Next
 INVARIANT CallerMapsUnchanged
+INVARIANT EveryCallMeansItsArguments
+INVARIANT Emit
 CHECK_DEADLOCK FALSE
